@@ -195,10 +195,34 @@ class Normaliser(object):
                 return Poly.atom("(%s)**(%s)" % (self.poly(e.left).canon(), ex.canon()))
         if isinstance(e, ast.Call) and ast.unparse(e.func) in _IDENTITY_CALLS and e.args:
             return self.poly(e.args[0])  # coercions do not change the value
+        if isinstance(e, ast.Call) and ast.unparse(e.func) in ("np.outer", "numpy.outer") and len(e.args) == 2 and not e.keywords:
+            return self.poly(e.args[0]) * self.poly(e.args[1])      # outer product of two vectors = their broadcast product
+        if isinstance(e, ast.Call) and ast.unparse(e.func) in ("np.flip", "np.flipud", "numpy.flip", "numpy.flipud") and len(e.args) == 1 and \
+                all(k.arg == "axis" and isinstance(k.value, ast.Constant) and k.value.value == 0 for k in e.keywords):
+            p = self.poly(e.args[0])            # reversal is linear: flip(c * x) = c * flip(x); one spelling for flip / flipud / axis=0
+            if p.is_monomial():
+                (m, c), = p.t.items()
+                inner = Poly({m: 1})
+                return Poly.atom("np.flip(%s)" % self._fmt(inner)) * Poly.const(c)
+            return Poly.atom("np.flip(%s)" % p.canon())
+        if isinstance(e, ast.Call) and ast.unparse(e.func) in ("np.arange", "numpy.arange") and not e.keywords and 1 <= len(e.args) <= 3:
+            a = list(e.args)                    # arange(0, n, 1) = arange(0, n) = arange(n)
+            if len(a) == 3 and isinstance(a[2], ast.Constant) and a[2].value == 1:
+                a = a[:2]
+            if len(a) == 2 and isinstance(a[0], ast.Constant) and a[0].value == 0:
+                a = a[1:]
+            return Poly.atom("np.arange(%s)" % ", ".join(self.arg(x) for x in a))
         if isinstance(e, ast.Call) and isinstance(e.func, ast.Attribute) and e.func.attr == "astype" and len(e.args) == 1 and \
                 ast.unparse(e.args[0]) in ("float", "np.float64", "numpy.float64", "'float'", "'float64'", "np.double", "'f8'"):
             return self.poly(e.func.value)  # a cast to float does not change the value
         return Poly.atom(self.opaque(e))
+
+    def _fmt(self, p):
+        if p.is_monomial():
+            (m, c), = p.t.items()
+            if c == 1 and len(m) == 1 and m[0][1] == 1:
+                return m[0][0]
+        return p.canon()
 
     def opaque(self, e):
         """canonical name of a non-arithmetic expression (arguments normalised recursively)"""
@@ -237,8 +261,8 @@ class Normaliser(object):
             return ("(%s)" if isinstance(a, ast.Tuple) else "[%s]") % inner
         if isinstance(a, ast.Starred):
             return "*" + self.arg(a.value)
-        if isinstance(a, (ast.BinOp, ast.UnaryOp, ast.Name, ast.Constant)):
-            p = self.poly(a)
+        if isinstance(a, (ast.BinOp, ast.UnaryOp, ast.Name, ast.Constant, ast.Call)):
+            p = self.poly(a)        # calls too: interpreted ones (coercions, flip, outer, arange) are normalised, others come back as one atom
             if p.is_monomial():
                 (m, c), = p.t.items()
                 if c == 1 and len(m) == 1 and m[0][1] == 1:
